@@ -5,6 +5,7 @@ CONSTANTS
  HashSession = TRUE
  HashId = TRUE
  DedupMode = "peer+id"
+ AtomicDedup = TRUE
  AllowRelay = FALSE
  GenLen = 12
 INVARIANTS Emit
